@@ -58,7 +58,9 @@ ASSUMPTIONS = [
     'parameter constraints and volatile parameters are not modelled',
     'generated durations are positive whole numbers of ticks under every scope that reaches them (cases where a '
     'parameter mapping makes a duration fractional or negative are filtered out by the harness)',
-    'global LinearTransformations only read channels the template defines',
+    'a global LinearTransformation reads channels the template defines, or none of them (then it forwards everything, '
+    'see the finding linear_inputs_absent); a LinearTransformation that finds only SOME of its inputs is not an '
+    'accepted input (every path raises KeyError)',
 ]
 
 CH = {'A': 1, 'B': 2, 'C': 3, 'X': 4, 'Y': 5, 'Z': 6}
@@ -261,6 +263,8 @@ class Gen:
         k = rng.choice(['offset', 'scale', 'parallel', 'linear', 'chain'] if allow_chain else
                        ['offset', 'scale', 'parallel', 'linear'])
         chans = sorted(chans)
+        if rng.random() < 0.04:
+            return {'k': 'identity'}, chans
         sub = [c for c in chans if rng.random() < 0.7] or [chans[0]]
         if k == 'offset':
             return {'k': 'offset', 'm': {c: _fr(self.val()) for c in sub}}, chans
@@ -275,6 +279,13 @@ class Gen:
         if k == 'linear':
             ins = sub
             free = [c for c in 'ABCXYZ' if c not in chans]
+            if rng.random() < 0.1 and len(free) >= 3:
+                # NONE of the inputs is a channel of the template (a setup-wide matrix for other channels): the call
+                # forwards everything
+                ins = rng.sample(free, rng.randint(1, 2))
+                outs = rng.sample([c for c in free if c not in ins], 1)
+                mat = [[_fr(rng.choice([1, -1, 2])) for _ in ins] for _ in outs]
+                return {'k': 'linear', 'ins': ins, 'outs': outs, 'mat': mat}, chans
             outs = list(ins) if rng.random() < 0.5 else rng.sample(free, rng.randint(1, min(2, len(free))))
             mat = [[_fr(rng.choice([0, 1, -1, 2, F(1, 2)])) for _ in ins] for _ in outs]
             return {'k': 'linear', 'ins': ins, 'outs': outs, 'mat': mat}, sorted((set(chans) - set(ins)) | set(outs))
@@ -509,6 +520,77 @@ def flags(rng, c):
         c['share'] = True
     if rng.random() < 0.4:
         c['reuse'] = True
+    if rng.random() < 0.3:
+        c['cp'] = cp_variant(rng, c['tree'])
+        if c['cp'].get('chmap') and c.get('G'):
+            # the global transformation sees the channel names AFTER the top-level channel mapping
+            oc = set(out_channels(c['tree']))
+            if (trafo_names(c['G']) - oc) & (set(c['cp']['chmap'].values()) | oc - set(c['cp']['chmap'])) - oc:
+                del c['cp']['chmap']
+            elif (trafo_names(c['G']) - oc) & set(c['cp']['chmap'].values()):
+                del c['cp']['chmap']
+            else:
+                c['G'] = rename_trafo(c['G'], c['cp']['chmap'])
+
+
+def trafo_names(t):
+    k = t['k']
+    if k == 'identity':
+        return set()
+    if k == 'chain':
+        return set().union(*[trafo_names(x) for x in t['ts']])
+    if k == 'linear':
+        return set(t['ins']) | set(t['outs'])
+    return set(t['m'])
+
+
+def rename_trafo(t, r):
+    k = t['k']
+    f = lambda c: r.get(c, c)
+    if k == 'identity':
+        return t
+    if k == 'chain':
+        return {'k': 'chain', 'ts': [rename_trafo(x, r) for x in t['ts']]}
+    if k == 'linear':
+        return dict(t, ins=[f(c) for c in t['ins']], outs=[f(c) for c in t['outs']])
+    return dict(t, m={f(c): v for c, v in t['m'].items()})
+
+
+def cp_variant(rng, tree):
+    """the other arguments of create_program (coverage audit round 4): channel_mapping / measurement_mapping given at
+    the top (= the template wrapped in a MappingPT, which is how the model sees it), an explicit LoopBuilder,
+    parameters=None / to_single_waveform=None, sampling into caller-provided arrays"""
+    cp = {}
+    oc = out_channels(tree)
+    r = rng.random()
+    if r < 0.45:
+        free = [z for z in 'ABCXYZ' if z not in oc]
+        rng.shuffle(free)
+        if rng.random() < 0.5 and len(oc) == 2:
+            cp['chmap'] = {oc[0]: oc[1], oc[1]: oc[0]}                     # swap
+        else:
+            cp['chmap'] = {c: free[k] for k, c in enumerate(oc) if rng.random() < 0.7} or {oc[0]: free[0]}
+    names = sorted(meas_names(tree))
+    if names and rng.random() < 0.5:
+        cp['mmap'] = {n: rng.choice(['m', 'n', 'k']) for n in names}
+    if rng.random() < 0.3:
+        cp['builder'] = True
+    if rng.random() < 0.3:
+        cp['params_none'] = True
+    if rng.random() < 0.5:
+        cp['into_array'] = True
+    if rng.random() < 0.4:
+        cp['params_as'] = rng.choice(['scope', 'str'])      # parameters handed over as a Scope / as strings
+    return cp
+
+
+def cp_wrap(case):
+    """the tree as the model sees create_program(channel_mapping=.., measurement_mapping=..): wrapped in a MappingPT"""
+    cp = case.get('cp') or {}
+    if not cp.get('chmap') and not cp.get('mmap'):
+        return case['tree']
+    return {'k': 'map', 'id': None, 'chmap': dict(cp.get('chmap') or {}),
+            'mmap': {a: b for a, b in (cp.get('mmap') or {}).items() if a != b}, 'sub': case['tree'], 'top': True}
 
 
 # boundary / regression shapes that must always be present
@@ -551,6 +633,22 @@ def fixed_cases():
                 'G': {'k': 'linear', 'ins': ['X', 'B'], 'outs': ['Y', 'Z'], 'mat': [['1', '1'], ['1', '-1']]}})
     out.append({'kind': 'ctor', 'step': '1/2', 'op': 'paratomic', 'args': [amc, A('2', {'C': '1'}, meas=[['k', '0', '1']])]})
     out.append({'kind': 'ctor', 'step': '1/2', 'op': 'paratomic', 'args': [dict(amc, id=None), A('2', {'C': '1'})]})
+    # a global LinearTransformation for channels the template does not have: constant templates are forwarded (also
+    # when collapsed), anything else raises KeyError (finding linear_inputs_absent)
+    L = {'k': 'linear', 'ins': ['X', 'Y'], 'outs': ['Z', 'C'], 'mat': [['1', '1'], ['1', '-1']]}
+    cseq = {'k': 'seq', 'id': 'cs', 'meas': [['m', '0', '1']], 'subs': [A('1', {'A': '1'}), A('2', {'A': '3'})]}
+    for S in ([], [{'by': 'name', 'name': 'cs'}]):
+        out.append({'kind': 'opt', 'step': '1/2', 'tree': cseq, 'S': S, 'G': L})
+        out.append({'kind': 'opt', 'step': '1/2', 'tree': cseq, 'S': S,
+                    'G': {'k': 'chain', 'ts': [{'k': 'offset', 'm': {'A': '1'}}, L, {'k': 'scale', 'm': {'A': '2'}}]}})
+    out.append({'kind': 'opt', 'step': '1/2', 'tree': {'k': 'seq', 'id': None, 'meas': [], 'subs': [A('1', {'A': '1'}), tb]},
+                'S': [], 'G': L})
+    # identity transformations: alone, chained with each other (chain_transformations() of nothing) and with an offset
+    ident = {'k': 'identity'}
+    for G in (ident, {'k': 'chain', 'ts': [ident, ident]}, {'k': 'chain', 'ts': [ident, {'k': 'offset', 'm': {'A': '1'}}, ident]}):
+        out.append({'kind': 'opt', 'step': '1/2', 'tree': cseq, 'S': [{'by': 'name', 'name': 'cs'}], 'G': G})
+        out.append({'kind': 'opt', 'step': '1/2', 'tree': {'k': 'rep', 'id': 'r', 'meas': [], 'n': 2, 'body': tb},
+                    'S': [{'by': 'name', 'name': 'r'}], 'G': G})
     # stepped scan whose body rebinds the loop index NAME through a mapping and repeats a hold (seeded change C05-4):
     # collapsing the repetition / the mapping / the loop / everything must not change what is played
     hold = A('2', {'A': ['0', 'i', '1']}, id='hold', meas=[['m', '0', '1']])
@@ -726,7 +824,8 @@ def gen_shape_cases(rng, n):
 
 
 # ---- convenience constructors -----------------------------------------------------------------------------------------
-CTORS = ['matmul', 'concat', 'appended', 'rep', 'pow', 'map', 'map', 'par', 'rev2', 'iter', 'pad', 'paratomic']
+CTORS = ['matmul', 'concat', 'appended', 'rep', 'pow', 'map', 'map', 'par', 'rev2', 'iter', 'pad', 'pad', 'paratomic',
+         'rmatmul', 'arithop']
 
 
 def gen_ctor_cases(rng, n):
@@ -750,7 +849,23 @@ def gen_ctor_cases(rng, n):
                 ops.append(o)
             if op == 'matmul':
                 ops = ops[:2]
+            if op == 'appended' and rng.random() < 0.12:
+                ops = ops[:1]                                  # with_appended() without arguments: self
             c['args'] = ops
+        elif op == 'rmatmul':
+            # (template, channel mapping) @ template: tuple operand, handled by PulseTemplate.__rmatmul__
+            inner = ['X', 'Y'][:len(chans)]
+            first = g.tree(rng.randint(0, 2), inner, kinds=['seq', 'rep', 'rev'])
+            c['args'] = [first, g.tree(rng.randint(0, 2), chans, kinds=['seq', 'seq', 'rep', 'rev'])]
+            c['chmap'] = dict(zip(inner, chans if rng.random() < 0.5 else chans[::-1]))
+        elif op == 'arithop':
+            # the operators + - * / with a number or a per-channel dict on either side
+            o = rng.choice('+-*/')
+            sv = (lambda: _fr(rng.choice([2, 4, F(1, 2), -1, -2]))) if o in '*/' else (lambda: _fr(g.val()))
+            c['args'] = [g.tree(rng.randint(0, 2), chans)]
+            c['aop'] = o
+            c['side'] = 'l' if o == '/' else rng.choice('lr')
+            c['scalar'] = sv() if rng.random() < 0.6 else {ch: sv() for ch in chans if rng.random() < 0.7} or sv()
         elif op in ('rep', 'pow'):
             inner = g.tree(rng.randint(0, 2), chans, kinds=['seq', 'rep', 'rep'])
             if inner['k'] != 'rep':
@@ -781,6 +896,10 @@ def gen_ctor_cases(rng, n):
             c['chmap'] = {a: b for a, b in zip(oc, pool)}
             names = sorted(meas_names(inner))
             c['mmap'] = {n: rng.choice(['m', 'n', 'k']) for n in names if rng.random() < 0.6}
+            # positional form: the kind of every mapping is detected from its keys (MappingPT.from_tuple)
+            groups = [set(c['chmap']), set(c['mmap']), set(c.get('pmap') or {})]
+            if rng.random() < 0.35 and not (groups[0] & groups[1] or groups[0] & groups[2] or groups[1] & groups[2]):
+                c['positional'] = True
         elif op == 'par':
             inner = g.tree(rng.randint(0, 2), chans, kinds=['par', 'par', 'seq'])
             if inner['k'] == 'par' and rng.random() < 0.7:
@@ -813,6 +932,8 @@ def gen_ctor_cases(rng, n):
                 first = {'k': 'amc', 'id': g.ident(0.3), 'meas': g.meas(total),
                          'subs': [first, g.simple_atom([pool[3]], [], total)]}
             c['args'] = [first] + [g.simple_atom([pool[i]], [], total) for i in range(1, k)]
+            if rng.random() < 0.2:
+                c['args'] = c['args'][:1]                      # with_parallel_atomic() without arguments: self
         elif op == 'pad':
             # constant atoms / sequences of constant atoms: final values are unambiguous
             def catom():
@@ -822,6 +943,16 @@ def gen_ctor_cases(rng, n):
                                                         'subs': [catom() for _ in range(rng.randint(1, 3))]}
             c['args'] = [inner]
             c['extra'] = rng.choice([0, 0, 1, 2, 3])     # pad by this many ticks (0: must return self)
+            r = rng.random()
+            if r < 0.2:
+                c['pad_mode'] = 'callable'               # to_new_duration = function of the current duration
+            elif r < 0.45:
+                c['pad_mode'] = 'next_multiple'          # qupulse.utils.to_next_multiple(sample rate, quantum)
+                c['quantum'] = rng.choice([2, 3, 4, 8])
+                ticks = sum(est_ticks(a, step) for a in c['args'])
+                c['extra'] = int(-(-ticks // c['quantum']) * c['quantum'] - ticks)
+            elif r < 0.65 and c['extra']:
+                c['pad_mode'] = 'kwargs'                 # pt_kwargs: the explicit SequencePT(self, pad, **kwargs)
         env0 = {k: F(v) for k, v in (c.get('params') or {}).items()}
         if (c.get('params') or any(has_pmap(a) for a in c['args'])) and not times_ok(ctor_explicit(c), step, env0):
             continue
@@ -836,8 +967,17 @@ def ctor_explicit(c):
     """JSON tree of the explicit nesting a constructor call replaces"""
     op = c['op']
     a = c['args']
+    if op == 'script':
+        return script_values(c)[c['target']]
+    if op in ('appended', 'paratomic') and len(a) == 1:
+        return a[0]
     if op in ('matmul', 'concat', 'appended'):
         return {'k': 'seq', 'id': None, 'meas': [], 'subs': list(a)}
+    if op == 'rmatmul':
+        return {'k': 'seq', 'id': None, 'meas': [], 'subs': [
+            {'k': 'map', 'id': None, 'chmap': dict(c['chmap']), 'mmap': {}, 'sub': a[0]}, a[1]]}
+    if op == 'arithop':
+        return {'k': 'arith', 'id': None, 'op': c['aop'], 'side': c['side'], 'scalar': c['scalar'], 'sub': a[0]}
     if op in ('rep', 'pow'):
         return {'k': 'rep', 'id': None, 'meas': [], 'n': c['n'], 'body': a[0]}
     if op == 'map':
@@ -859,7 +999,7 @@ def ctor_explicit(c):
             return inner
         last = inner if inner['k'] == 'const' else inner['subs'][-1]
         pad = {'k': 'const', 'id': None, 'dur': _fr(F(c['extra']) * F(c['step'])), 'vals': dict(last['vals']), 'meas': []}
-        return {'k': 'seq', 'id': None, 'meas': [], 'subs': [inner, pad]}
+        return {'k': 'seq', 'id': 'padded' if c.get('pad_mode') == 'kwargs' else None, 'meas': [], 'subs': [inner, pad]}
     raise ValueError(op)
 
 
@@ -874,12 +1014,23 @@ def ctor_call(c):
         return SequencePT.concatenate(*a)
     if op == 'appended':
         return a[0].with_appended(*a[1:])
+    if op == 'rmatmul':
+        return (a[0], dict(c['chmap'])) @ a[1]
+    if op == 'arithop':
+        import operator
+        f = {'+': operator.add, '-': operator.sub, '*': operator.mul, '/': operator.truediv}[c['aop']]
+        sc = c['scalar']
+        sc = {ch: I._py(v) for ch, v in sc.items()} if isinstance(sc, dict) else I._py(sc)
+        return f(a[0], sc) if c['side'] == 'l' else f(sc, a[0])
     if op == 'rep':
         return a[0].with_repetition(c['n'])
     if op == 'pow':
         return a[0] ** c['n']
     if op == 'map':
         kw = {'parameter_mapping': {k: str(I._expr(e)) for k, e in c['pmap'].items()}} if c.get('pmap') else {}
+        if c.get('positional'):
+            maps = [m for m in (dict(c['chmap']), dict(c.get('mmap') or {}), kw.get('parameter_mapping')) if m]
+            return a[0].with_mapping(*maps)
         return a[0].with_mapping(channel_mapping=dict(c['chmap']), measurement_mapping=dict(c.get('mmap') or {}), **kw)
     if op == 'paratomic':
         return a[0].with_parallel_atomic(*a[1:])
@@ -892,8 +1043,495 @@ def ctor_call(c):
         return a[0].with_iteration('i', tuple(c['range']))
     if op == 'pad':
         total = est_ticks(c['args'][0], c['step']) * F(c['step'])
+        mode = c.get('pad_mode')
+        if mode == 'callable':
+            return a[0].pad_to(lambda d: d + I._py(F(c['extra']) * F(c['step'])))
+        if mode == 'next_multiple':
+            from qupulse.utils import to_next_multiple
+            return a[0].pad_to(to_next_multiple(int(1 / F(c['step'])), c['quantum']))
+        if mode == 'kwargs':
+            return a[0].pad_to(I._py(total + F(c['extra']) * F(c['step'])), pt_kwargs={'identifier': 'padded'})
         return a[0].pad_to(I._py(total + F(c['extra']) * F(c['step'])))
     raise ValueError(op)
+
+
+# ---- scripts: several constructor calls / queries on SHARED template objects, in a given order --------------------------
+# A script case is {'kind':'ctor','op':'script','args':[base trees],'steps':[step...],'target':k,'same':None|'before'|
+# 'after'|'fresh-first', 'params':{'i':..}}.  Values v0..v(n-1) are the base templates (built ONCE), every step appends
+# one value (or none, for a query) and is executed on the real objects in the order given:
+#   ['pad', s, extra]        v_s.pad_to(duration + extra ticks)
+#   ['iter', s, [a, b, st]]  v_s.with_iteration('i', (a, b, st))
+#   ['par', s, {ch: num}]    v_s.with_parallel_channels({...})
+#   ['rep', s, n]            v_s.with_repetition(n)
+#   ['map', s, chmap, pmap]  v_s.with_mapping(channel_mapping=.., parameter_mapping=..)
+#   ['seq', s, s2]           v_s @ v_s2            (s2 == s allowed: the very same object twice)
+#   ['rev', s]               v_s.with_time_reversal()
+#   ['arith', s, op, num]    ArithmeticPT(v_s, op, num)         (a plain wrapper, shares v_s)
+#   ['query', s, attribute]  getattr(v_s, attribute) / a plain create_program; exceptions are swallowed (the caller
+#                            survives a failed call); produces no value
+# The explicit nesting of a value is the JSON tree obtained by replacing every constructor by the class it stands for
+# (pad: SequencePT(x, ConstantPT(extra, final values of x)) with the final values computed HERE, by `final_vals`, from
+# the description alone).  `same`: the explicit nesting is built from fresh objects (None), or from the SAME base objects
+# before the steps run / after them.
+
+SCRIPT_QUERIES = ['final_values', 'initial_values', 'duration', 'integral', 'parameter_names', 'defined_channels',
+                  'measurement_names', 'compile']
+
+
+def aff(x):
+    """JSON number -> {name: coefficient} ('' = constant term)"""
+    d = {'': F(x[0]) if isinstance(x, list) else F(x)}
+    for n, k in I.terms(x):
+        d[n] = d.get(n, F(0)) + k
+    return d
+
+
+def aff_json(d):
+    out = [_fr(d.get('', F(0)))]
+    for n in sorted(k for k in d if k and d[k] != 0):
+        out += [n, _fr(d[n])]
+    return out if len(out) > 1 else out[0]
+
+
+def aff_lin(a, ka, b=None, kb=0):
+    out = {n: F(ka) * v for n, v in a.items()}
+    for n, v in (b or {}).items():
+        out[n] = out.get(n, F(0)) + F(kb) * v
+    return out
+
+
+def aff_const(a):
+    return all(v == 0 for n, v in a.items() if n)
+
+
+def aff_mul(a, b):
+    if aff_const(b):
+        return aff_lin(a, b.get('', F(0)))
+    if aff_const(a):
+        return aff_lin(b, a.get('', F(0)))
+    return None
+
+
+def aff_subst(a, sub):
+    """simultaneous substitution name -> affine"""
+    out = {'': a.get('', F(0))}
+    for n, k in a.items():
+        if not n:
+            continue
+        out = aff_lin(out, 1, sub[n] if n in sub else {n: F(1)}, k)
+    return out
+
+
+def last_index(r):
+    vals = list(range(*r))
+    return vals[-1] if vals else r[0]          # an empty loop plays nothing; the code substitutes the start value
+
+
+def edge_vals(node, final=True):
+    """{channel: affine} = the voltages a template ends on (final) / starts with, as expressions in the names the
+    template reads; None when the code defines none (TimeReversalPT) or the value is not affine.  Computed from the
+    description alone: this is the meaning of `final values of pt` in pad_to's explicit nesting."""
+    k = node['k']
+    if k == 'const':
+        return {c: aff(v) for c, v in node['vals'].items()}
+    if k == 'table':
+        return {c: aff(es[-1 if final else 0][1]) for c, es in node['entries'].items()}
+    if k == 'func':
+        b = aff(node['b'])
+        return {node['ch']: aff_lin(b, 1, aff(node['dur']), F(node['a'])) if final else b}
+    if k == 'amc':
+        out = {}
+        for s in node['subs']:
+            v = edge_vals(s, final)
+            if v is None:
+                return None
+            out.update(v)
+        return out
+    if k == 'seq':
+        return edge_vals(node['subs'][-1 if final else 0], final)
+    if k == 'rep':
+        return edge_vals(node['body'], final)
+    if k == 'rev':
+        return None
+    sub = edge_vals(I.children(node)[0], final)
+    if sub is None:
+        return None
+    if k == 'for':
+        r = node['range']
+        at = {node['idx']: {'': F(last_index(r) if final else r[0])}}
+        return {c: aff_subst(v, at) for c, v in sub.items()}
+    if k == 'map':
+        pm = {n: aff(e) for n, e in (node.get('pmap') or {}).items()}
+        return {node['chmap'].get(c, c): aff_subst(v, pm) for c, v in sub.items()}
+    if k == 'par':
+        return dict(sub, **{c: aff(v) for c, v in node['ov'].items()})
+    if k == 'arith':
+        sc = node['scalar']
+        out = {}
+        for c, v in sub.items():
+            if isinstance(sc, dict) and c not in sc:
+                out[c] = aff_lin(v, -1) if node['side'] == 'r' and node['op'] == '-' else v
+                continue
+            s = aff(sc[c] if isinstance(sc, dict) else sc)
+            if node['op'] == '+':
+                r = aff_lin(v, 1, s, 1)
+            elif node['op'] == '-':
+                r = aff_lin(v, 1, s, -1) if node['side'] == 'l' else aff_lin(s, 1, v, -1)
+            elif node['op'] == '*':
+                r = aff_mul(v, s)
+            else:
+                r = aff_lin(v, 1 / s['']) if aff_const(s) and s[''] != 0 and node['side'] == 'l' else None
+            if r is None:
+                return None
+            out[c] = r
+        return out
+    raise ValueError(k)
+
+
+def script_values(c):
+    """explicit nesting (JSON tree) of every value of a script; None for a value that cannot be formed"""
+    vals = list(c['args'])
+    for st in c['steps']:
+        op, s = st[0], st[1]
+        x = vals[s]
+        if op == 'query':
+            continue
+        if x is None:
+            vals.append(None)
+        elif op == 'pad':
+            fv = edge_vals(x)
+            if st[2] == 0:
+                vals.append(x)
+            elif fv is None:
+                vals.append(None)
+            else:
+                pad = {'k': 'const', 'id': None, 'dur': _fr(F(st[2]) * F(c['step'])),
+                       'vals': {ch: aff_json(v) for ch, v in fv.items()}, 'meas': []}
+                vals.append({'k': 'seq', 'id': None, 'meas': [], 'subs': [x, pad]})
+        elif op == 'iter':
+            vals.append({'k': 'for', 'id': None, 'meas': [], 'idx': 'i', 'range': list(st[2]), 'body': x})
+        elif op == 'par':
+            vals.append({'k': 'par', 'id': None, 'ov': dict(st[2]), 'sub': x})
+        elif op == 'rep':
+            vals.append({'k': 'rep', 'id': None, 'meas': [], 'n': st[2], 'body': x})
+        elif op == 'map':
+            node = {'k': 'map', 'id': None, 'chmap': dict(st[2]), 'mmap': {}, 'sub': x}
+            if st[3]:
+                node['pmap'] = dict(st[3])
+            vals.append(node)
+        elif op == 'seq':
+            vals.append(None if vals[st[2]] is None else {'k': 'seq', 'id': None, 'meas': [], 'subs': [x, vals[st[2]]]})
+        elif op == 'rev':
+            vals.append({'k': 'rev', 'id': None, 'sub': x})
+        elif op == 'arith':
+            vals.append({'k': 'arith', 'id': None, 'op': st[2], 'side': 'l', 'scalar': st[3], 'sub': x})
+        else:
+            raise ValueError(op)
+    return vals
+
+
+def script_ancestry(c, k):
+    """indices of the values a value is built from (excluding itself)"""
+    src = {}
+    n = len(c['args'])
+    for st in c['steps']:
+        if st[0] == 'query':
+            continue
+        src[n] = [st[1]] + ([st[2]] if st[0] == 'seq' else [])
+        n += 1
+    out, todo = set(), list(src.get(k, []))
+    while todo:
+        x = todo.pop()
+        if x not in out:
+            out.add(x)
+            todo += src.get(x, [])
+    return out
+
+
+def script_run(c, pool):
+    """execute the steps of a script on the real objects `pool` (list, extended in place)"""
+    from qupulse.pulses import ArithmeticPT
+    step = F(c['step'])
+    vals = script_values(c)
+    k = len(c['args'])
+    for st in c['steps']:
+        op, x = st[0], pool[st[1]]
+        if op == 'query':
+            try:
+                if st[2] == 'compile':
+                    x.create_program(parameters=I.py_params(c.get('params')))
+                else:
+                    getattr(x, st[2])
+            except Exception:
+                pass
+            continue
+        if op == 'pad':
+            total = est_ticks(vals[st[1]], c['step'], {n: F(v) for n, v in (c.get('params') or {}).items()}) * step
+            new = x.pad_to(I._py(total + F(st[2]) * step))
+        elif op == 'iter':
+            new = x.with_iteration('i', tuple(st[2]))
+        elif op == 'par':
+            new = x.with_parallel_channels({ch: I._expr(v) for ch, v in st[2].items()})
+        elif op == 'rep':
+            new = x.with_repetition(st[2])
+        elif op == 'map':
+            kw = {'parameter_mapping': {n: str(I._expr(e)) for n, e in st[3].items()}} if st[3] else {}
+            new = x.with_mapping(channel_mapping=dict(st[2]), **kw)
+        elif op == 'seq':
+            new = x @ pool[st[2]]
+        elif op == 'rev':
+            new = x.with_time_reversal()
+        elif op == 'arith':
+            new = ArithmeticPT(x, st[2], I._expr(st[3]))
+        pool.append(new)
+        k += 1
+    return pool
+
+
+def script_impl(c):
+    """-> {'built': description of the target value, 'o1': what it plays, 'o2': what the explicit nesting plays}"""
+    params = c.get('params')
+    explicit = ctor_explicit(c)
+    pool = [I.build_pt(a) for a in c['args']]
+    share = {canon(a): {(): o} for a, o in zip(c['args'], pool)}
+    same = c.get('same')
+    o2 = None
+    if same == 'before':
+        o2 = I.observe(I.build_pt(explicit, None, (), share).create_program(parameters=I.py_params(params)), c['step'])
+    elif same == 'fresh-first':
+        o2 = I.run_options(explicit, [], None, c['step'], params=params)
+    script_run(c, pool)
+    built = pool[c['target']]
+    o1 = I.observe(built.create_program(parameters=I.py_params(params)), c['step'])
+    if same == 'after':
+        o2 = I.observe(I.build_pt(explicit, None, (), share).create_program(parameters=I.py_params(params)), c['step'])
+    elif o2 is None:
+        o2 = I.run_options(explicit, [], None, c['step'], params=params)
+    return built, o1, o2
+
+
+def script_base(rng, g, chans, kind):
+    """a base template whose VALUES read the index i and whose durations do not"""
+    A = lambda: g.simple_atom(chans, ['i'])
+    for _ in range(30):
+        if kind == 'seq':
+            t = {'k': 'seq', 'id': g.ident(), 'meas': g.meas(2), 'subs': [A() for _ in range(rng.randint(1, 3))]}
+        elif kind == 'atom':
+            t = A()
+        elif kind == 'repseq':
+            t = {'k': 'rep', 'id': g.ident(), 'meas': [], 'n': rng.choice([1, 2]),
+                 'body': {'k': 'seq', 'id': g.ident(), 'meas': [], 'subs': [A(), A()]}}
+        elif kind == 'seqseq':
+            t = {'k': 'seq', 'id': g.ident(), 'meas': [], 'subs': [
+                A(), {'k': 'seq', 'id': g.ident(), 'meas': g.meas(2), 'subs': [A(), A()]}]}
+        else:
+            t = g.tree(rng.randint(1, 2), chans, idxs=['i'], kinds=['seq', 'seq', 'rep', 'par', 'arith', 'map'])
+        fv = edge_vals(t)
+        if fv is None or not any('i' in v and v['i'] != 0 for v in fv.values()):
+            last = t
+            while last['k'] in ('seq', 'rep'):
+                last = last['subs'][-1] if last['k'] == 'seq' else last['body']
+            force_final_idx(last)
+            fv = edge_vals(t)
+        if fv is None or not any(v.get('i') for v in fv.values()):
+            continue
+        if len({est_ticks(t, g.step, {'i': v}) for v in (0, 1, 2, 5)}) != 1 or est_ticks(t, g.step, {'i': 0}) <= 0:
+            continue
+        if not all(times_ok(t, g.step, {'i': F(v)}) for v in (0, 1, 2, 5)):
+            continue
+        return t
+    return None
+
+
+def force_final_idx(node):
+    """make the LAST value of an atom depend on i (so that the final values of everything ending on it do)"""
+    if node['k'] == 'const':
+        c = sorted(node['vals'])[0]
+        if not isinstance(node['vals'][c], list):
+            node['vals'][c] = [node['vals'][c], 'i', '1']
+    elif node['k'] == 'table':
+        c = sorted(node['entries'])[0]
+        e = node['entries'][c][-1]
+        if not isinstance(e[1], list):
+            e[1] = [e[1], 'i', '1']
+            if len(node['entries'][c]) == 2 and not isinstance(node['entries'][c][0][1], list):
+                node['entries'][c][0][1] = [node['entries'][c][0][1], 'i', '-1/2']
+
+
+def script_step(rng, g, c, vals, kinds, src=None):
+    """one random applicable step (or None)"""
+    live = [k for k, v in enumerate(vals) if v is not None]
+    s = src if src is not None else rng.choice(live)
+    x = vals[s]
+    op = rng.choice(kinds)
+    chans = out_channels(x)
+    if op == 'pad':
+        return ['pad', s, rng.choice([1, 2, 2, 3, 0])] if edge_vals(x) is not None else None
+    if op == 'iter':
+        return ['iter', s, rng.choice([[0, 3, 1], [0, 2, 1], [2, 0, -1], [1, 6, 2], [0, 4, 3]])] \
+            if 'i' in free_names(x) else None
+    if op == 'par':
+        ch = rng.choice(chans + ['Z'])
+        v = _fr(g.val())
+        return ['par', s, {ch: [v, 'i', _fr(rng.choice([1, -1, F(1, 2)]))] if rng.random() < 0.5 else v}]
+    if op == 'rep':
+        return ['rep', s, rng.choice([1, 2, 2, 3])]
+    if op == 'map':
+        pm = {'i': [_fr(rng.choice([0, 1, -1])), 'i', _fr(rng.choice([1, 2, -1, F(1, 2)]))]} \
+            if 'i' in free_names(x) and rng.random() < 0.7 else None
+        free = [z for z in 'ABCXYZ' if z not in chans]
+        cm = {rng.choice(chans): rng.choice(free)} if rng.random() < 0.5 or not pm else {}
+        return ['map', s, cm, pm]
+    if op == 'seq':
+        cand = [k for k in live if sorted(out_channels(vals[k])) == sorted(chans)]
+        return ['seq', s, rng.choice(cand)]
+    if op == 'rev':
+        return ['rev', s]
+    if op == 'arith':
+        o = rng.choice('+-*')
+        return ['arith', s, o, _fr(rng.choice([2, -1, F(1, 2)])) if o == '*' else
+                ([_fr(g.val()), 'i', '1'] if rng.random() < 0.4 else _fr(g.val() or 1))]
+    if op == 'query':
+        return ['query', s, rng.choice(SCRIPT_QUERIES[:2] * 3 + SCRIPT_QUERIES)]
+    raise ValueError(op)
+
+
+def script_finish(rng, c, budget=48):
+    """choose params / validate; None when the target cannot be compiled within the assumptions"""
+    vals = script_values(c)
+    t = vals[c['target']]
+    if t is None:
+        return None
+    names = free_names(t)
+    if names - {'i'}:
+        return None
+    if 'i' in names:
+        c['params'] = {'i': _fr(rng.choice([5, 4, -3, 7]))}         # outside every generated loop range
+    env = {k: F(v) for k, v in (c.get('params') or {}).items()}
+    try:
+        if not times_ok(t, c['step'], env) or not 0 < est_ticks(t, c['step'], env) <= budget:
+            return None
+        for st in c['steps']:                        # durations handed to pad_to must be whole positive ticks
+            if st[0] == 'pad' and est_ticks(vals[st[1]], c['step'], env) <= 0:
+                return None
+    except KeyError:
+        return None
+    return c
+
+
+SCRIPT_WRAPS = ['iter', 'par', 'rep', 'map', 'seq', 'arith']
+
+
+def gen_script_cases(rng, n, exhaustive=False):
+    """class `order of operations on shared template objects`:
+    (a) ORDER family: base b; wrappers w = W_k(..W_1(b)) (k <= 2) built through the convenience constructors; then a
+        TRIGGER on the wrapper (pad_to / reading final_values / initial_values / compiling it), and only then the
+        ACTION on the inner object (b.pad_to, or pad of an intermediate wrapper); targets: the padded inner template, a
+        sweep of it, the wrapper padded again, a second pad of the same object; bottom-up control orders included;
+    (b) random scripts over all step kinds (constructors applied twice, the same object twice in a sequence, queries
+        in between), random target.
+    Every case compares the constructor result with the explicit nesting built from fresh objects or from the same
+    base objects (before / after the script)."""
+    cases = []
+    sames = [None, 'after', 'before', 'fresh-first']
+    chains = [(w,) for w in SCRIPT_WRAPS] + [(a, b) for a in SCRIPT_WRAPS for b in SCRIPT_WRAPS]
+    bases = ['seq', 'atom', 'repseq', 'seqseq', 'tree']
+    triggers = ['pad', 'final_values', 'initial_values', 'compile', 'none']
+    combos = [(b, ch, tr) for b in bases for ch in chains for tr in triggers]
+    if not exhaustive:
+        must = [(b, (w,), tr) for b in ('seq', 'seqseq') for w in ('iter', 'par') for tr in ('pad', 'final_values')]
+        rest = [x for x in combos if x not in must]
+        rng.shuffle(rest)
+        combos = must + rest[:max(0, n // 4 - len(must))]
+    for bi, (bk, chain, trig) in enumerate(combos):
+        for _ in range(6):
+            step = rng.choice(STEPS)
+            g = Gen(rng, step)
+            chans = rng.choice([['A'], ['A', 'B'], ['X']])
+            b = script_base(rng, g, chans, bk)
+            if b is None:
+                continue
+            c = {'kind': 'ctor', 'op': 'script', 'step': step, 'args': [b], 'steps': [], 'family': 'order'}
+            vals = [b]
+            ok = True
+            for w in chain:                                   # wrappers, outermost last
+                st = script_step(rng, g, c, vals, [w], src=len(vals) - 1)
+                if st is None:
+                    ok = False
+                    break
+                c['steps'].append(st)
+                vals = script_values(c)
+            if not ok:
+                continue
+            top = len(vals) - 1
+            if trig == 'pad':
+                if edge_vals(vals[top]) is None:
+                    continue
+                c['steps'].append(['pad', top, rng.choice([1, 2])])
+            elif trig != 'none':
+                c['steps'].append(['query', top, trig])
+            vals = script_values(c)
+            # the action: pad an inner object (the base or, for chains of two, the first wrapper)
+            inner = rng.choice([0] * 3 + list(range(1, top))) if top > 1 else 0
+            c['steps'].append(['pad', inner, rng.choice([1, 2, 3])])
+            padded = len(script_values(c)) - 1
+            variants = [('padded', [])]
+            if 'i' in free_names(script_values(c)[padded]):
+                variants.append(('sweep', [['iter', padded, [0, 3, 1]]]))
+            if trig == 'pad':
+                variants.append(('top', None))                 # the padded wrapper itself (top-down pad result)
+            variants.append(('again', [['pad', inner, rng.choice([1, 2, 4])]]))        # the same object padded twice
+            variants.append(('padpad', [['pad', padded, 1]]))                           # pad of the padded template
+            variants.append(('rewrap', [script_step(rng, g, c, script_values(c), [chain[0]], src=padded)]))
+            if not exhaustive:
+                variants = variants[:2] + rng.sample(variants[2:], 1) if len(variants) > 2 else variants
+            for name, extra in variants:
+                cc = copy.deepcopy(c)
+                if extra is None:
+                    cc['target'] = padded - 1
+                elif any(e is None for e in extra):
+                    continue
+                else:
+                    cc['steps'] += extra
+                    cc['target'] = len(script_values(cc)) - 1
+                cc['same'] = sames[(bi + len(cases)) % 4]
+                cc['variant'] = name
+                cc = script_finish(rng, cc)
+                if cc is not None:
+                    cases.append(cc)
+            break
+    # (b) random scripts
+    kinds = ['pad', 'pad', 'pad', 'iter', 'par', 'rep', 'map', 'seq', 'rev', 'arith', 'query', 'query']
+    tries = 0
+    want = len(cases) + (n // 3 if not exhaustive else n)
+    while len(cases) < want and tries < 40 * n:
+        tries += 1
+        step = rng.choice(STEPS)
+        g = Gen(rng, step)
+        chans = rng.choice([['A'], ['A', 'B']])
+        args = [script_base(rng, g, chans, rng.choice(bases)) for _ in range(rng.choice([1, 1, 2]))]
+        if any(a is None for a in args):
+            continue
+        c = {'kind': 'ctor', 'op': 'script', 'step': step, 'args': args, 'steps': [], 'family': 'script'}
+        for _ in range(rng.randint(2, 6)):
+            vals = script_values(c)
+            live = [k for k, v in enumerate(vals) if v is not None]
+            r = rng.random()
+            src = live[-1] if r < 0.4 else rng.choice(range(len(args))) if r < 0.7 else rng.choice(live)
+            st = script_step(rng, g, c, vals, kinds, src=src)
+            if st is not None:
+                c['steps'].append(st)
+        vals = script_values(c)
+        pads = [len(args) + k for k, st in enumerate(s for s in c['steps'] if s[0] != 'query') if st[0] == 'pad']
+        live = [k for k in range(len(args), len(vals)) if vals[k] is not None]
+        if not live:
+            continue
+        c['target'] = rng.choice(pads) if pads and rng.random() < 0.7 else rng.choice(live)
+        c['same'] = rng.choice(sames)
+        c = script_finish(rng, c)
+        if c is not None:
+            cases.append(c)
+    return cases
 
 
 def describe(pt):
@@ -907,7 +1545,7 @@ def describe(pt):
         """number or affine expression in one loop index -> JSON number"""
         if isinstance(x, (int, float)):
             return _fr(vlib.to_fraction(x))
-        e = sympy.sympify(getattr(x, 'sympified_expression', getattr(x, 'underlying_expression', x)))
+        e = sympy.sympify(getattr(x, 'sympified_expression', getattr(x, 'underlying_expression', x))).doit()
         syms = sorted(e.free_symbols, key=str)
         if not syms:
             return _fr(vlib.to_fraction(float(e)) if not e.is_Rational else F(int(e.p), int(e.q)))
@@ -983,11 +1621,12 @@ def describe(pt):
 def gen_cases(rng, tier, ctx):
     cases = fixed_cases()
     if tier == 'quick':
-        cases += gen_opt_cases(rng, 200, 3, 3)
+        cases += gen_opt_cases(rng, 180, 3, 3)
         cases += gen_opt_cases(rng, 25, 2, 0, exhaustive=True)
-        cases += gen_rebind_cases(rng, 90)
-        cases += gen_shape_cases(rng, 120)
-        cases += gen_ctor_cases(rng, 250)
+        cases += gen_rebind_cases(rng, 80)
+        cases += gen_shape_cases(rng, 100)
+        cases += gen_ctor_cases(rng, 240)
+        cases += gen_script_cases(rng, 130)
     else:
         cases += gen_opt_cases(rng, 900, 4, 4)
         cases += gen_opt_cases(rng, 150, 3, 0, exhaustive=True)
@@ -995,6 +1634,8 @@ def gen_cases(rng, tier, ctx):
         cases += gen_rebind_cases(rng, 400)
         cases += gen_shape_cases(rng, 800)
         cases += gen_ctor_cases(rng, 1200)
+        cases += gen_script_cases(rng, 600, exhaustive=True)
+        cases += gen_script_cases(rng, 600)
     return cases
 
 
@@ -1018,7 +1659,7 @@ def run_impl(case):
     import warnings
     if case['kind'] == 'opt':
         def go():
-            kw = {'params': case.get('params'), 'share': bool(case.get('share'))}
+            kw = {'params': case.get('params'), 'share': bool(case.get('share')), 'cp': case.get('cp')}
             built = None
             if case.get('reuse'):
                 objs = {}
@@ -1040,13 +1681,21 @@ def run_impl(case):
         def go():
             with warnings.catch_warnings():
                 warnings.simplefilter('ignore')
+                if case['op'] == 'script':
+                    built, o1, o2 = script_impl(case)
+                    for o in (o1, o2):
+                        if 'crash' in o:
+                            return o
+                    return {'built': describe(built), 'o1': o1, 'o2': o2}
                 built = ctor_call(case)
                 o1 = I.observe(built.create_program(parameters=I.py_params(case.get('params'))), case['step'])
                 o2 = I.run_options(ctor_explicit(case), [], None, case['step'], params=case.get('params'))
                 for o in (o1, o2):
                     if 'crash' in o:
                         return o
-                return {'built': describe(built), 'o1': o1, 'o2': o2}
+                # the operands as the real objects are (MappingPT(MappingPT(x)) already merges when it is built)
+                return {'built': describe(built), 'o1': o1, 'o2': o2,
+                        'args': [describe(I.build_pt(x)) for x in case['args']]}
         return _guard(go)
     raise ValueError(case['kind'])
 
@@ -1147,6 +1796,8 @@ def g_trafo(t):
         return '[]'
     d = lambda m: glist(lambda cv: '(%s, %s)' % (gN(CH[cv[0]]), gQ(F(cv[1]))), sorted(m.items()))
     k = t['k']
+    if k == 'identity':
+        return '[]'
     if k == 'offset':
         return '[TOffset %s]' % d(t['m'])
     if k == 'scale':
@@ -1191,15 +1842,55 @@ def to_coq(case, obs):
         return 'CCrash'
     if case['kind'] == 'opt':
         pr = Printer(case['step'], case['tree'])
-        term = pr.pt(case['tree'], {})
+        term = pr.pt(cp_wrap(case), {})
         eff = effective_paths(case['tree'], case['S'])
         S = sorted({pr.cls(I.node_at(case['tree'], p)) for p in eff})
         return '(COpt %s %s %s %s %s %s)' % (term, g_params(case.get('params')), glist(gN, S), g_trafo(case['G']),
                                              g_obs(obs['plain'], case['step']), g_obs(obs['opt'], case['step']))
     pr = Printer(case['step'], None)
-    return '(CSame %s %s %s %s %s)' % (pr.pt(obs['built'], {}), pr.pt(ctor_explicit(case), {}),
-                                       g_params(case.get('params')),
-                                       g_obs(obs['o1'], case['step']), g_obs(obs['o2'], case['step']))
+    q1, q2 = pr.pt(obs['built'], {}), pr.pt(ctor_explicit(case), {})
+    k = g_cop(dict(case, args=obs['args']), pr) if 'args' in obs else None
+    if k is None:
+        return '(CSame %s %s %s %s %s)' % (q1, q2, g_params(case.get('params')),
+                                           g_obs(obs['o1'], case['step']), g_obs(obs['o2'], case['step']))
+    # node classes without identifier (ForLoopPTs excluded: the model unrolls them into sequences, the constructors
+    # only look for real SequencePTs)
+    un = sorted(i for key, i in pr.classes.items()
+                if json.loads(key).get('id') is None and json.loads(key)['k'] != 'for')
+    return '(CCtor %s %s %s %s %s %s %s)' % (k, glist(gN, un), q1, q2, g_params(case.get('params')),
+                                             g_obs(obs['o1'], case['step']), g_obs(obs['o2'], case['step']))
+
+
+def g_cop(case, pr):
+    """which constructor was called on which operands (Corr.v: cop); None for scripts"""
+    op = case['op']
+    a = case['args']
+    if op == 'script':
+        return None
+    if op in ('iter', 'arithop') or op in ('appended', 'paratomic') and len(a) == 1:
+        return '(KIs %s)' % pr.pt(ctor_explicit(case))
+    if op in ('matmul', 'concat', 'appended'):
+        return '(KConcat %s)' % glist(pr.pt, a)
+    if op == 'rmatmul':
+        first = {'k': 'map', 'id': None, 'chmap': dict(case['chmap']), 'mmap': {}, 'sub': a[0]}
+        return '(KConcat %s)' % glist(pr.pt, [first, a[1]])
+    if op == 'pad':
+        return '(KPad %s %s %s)' % (gbool(case.get('pad_mode') == 'kwargs'), pr.pt(a[0]), gZ(case['extra']))
+    if op in ('rep', 'pow'):
+        return '(KRep %s %s)' % (vlib.gnat(case['n']), pr.pt(a[0]))
+    if op == 'rev2':
+        return '(KRev2 %s %s)' % (gbool(case['named']), pr.pt(a[0]))
+    if op == 'map':
+        ren = glist(lambda ab: '(%s, %s)' % (gN(CH[ab[0]]), gN(CH[ab[1]])), sorted(case['chmap'].items()))
+        mren = glist(lambda ab: '(%s, %s)' % (gN(MN[ab[0]]), gN(MN[ab[1]])), sorted((case.get('mmap') or {}).items()))
+        pm = glist(lambda ne: '(%s, %s)' % (gN(PN[ne[0]]), pr.ex(ne[1])), sorted((case.get('pmap') or {}).items()))
+        return '(KMap %s %s %s %s)' % (ren, mren, pm, pr.pt(a[0]))
+    if op == 'par':
+        ov = glist(lambda cv: '(%s, %s)' % (gN(CH[cv[0]]), pr.ex(cv[1])), sorted(case['ov'].items()))
+        return '(KPar %s %s)' % (ov, pr.pt(a[0]))
+    if op == 'paratomic':
+        return '(KParAtomic %s)' % glist(pr.pt, a)
+    raise ValueError(op)
 
 
 # ---------------------------------------------------------------------------------------------------------------------
@@ -1233,6 +1924,7 @@ def histogram_keys(case, obs):
         keys.append('program:none' if obs['plain'].get('none') else 'program:some')
         keys.append('family:' + case.get('family', 'random'))
         keys += [f for f in ('share', 'reuse', 'params') if case.get(f)]
+        keys += ['create_program:' + f for f in sorted(case.get('cp') or {})]
         pms = [I.node_at(t, p).get('pmap') or {} for p in I.all_paths(t)]
         if any(pms):
             keys.append('pmap')
@@ -1240,12 +1932,34 @@ def histogram_keys(case, obs):
             keys.append('pmap-rebinds-name-to-itself')
         if any(set(expr_names(e)) & (set(pm) - {k}) for pm in pms for k, e in pm.items()):
             keys.append('pmap-swap')
+        if linear_inputs_absent(case):
+            keys.append('G-linear-inputs-absent')
         if obs['opt'].get('raise'):
             keys.append('opt-raises')
         elif any(v is None for o in (obs['opt'],) if not o.get('none') for l in o['samples'].values() for v in l):
             keys.append('opt-has-NaN')
     else:
         keys.append('ctor:' + case['op'])
+        if case.get('pad_mode'):
+            keys.append('ctor:pad-' + case['pad_mode'])
+        if case.get('positional'):
+            keys.append('ctor:map-positional')
+        if case['op'] in ('appended', 'paratomic') and len(case['args']) == 1:
+            keys.append('ctor:%s-without-arguments' % case['op'])
+        if case['op'] == 'script':
+            keys += ['family:' + case['family'], 'script-same:%s' % case.get('same'),
+                     'script-steps:%d' % len(case['steps'])]
+            keys += sorted({'script-step:' + (st[0] if st[0] != 'query' else 'query-' + st[2]) for st in case['steps']})
+            if case.get('variant'):
+                keys.append('order-target:' + case['variant'])
+            # an inner object is padded AFTER a template built from it was padded / queried (the top-down order)
+            seen = set()
+            for st in case['steps']:
+                if st[0] == 'pad' and st[1] in seen:
+                    keys.append('script-pad-after-enclosing-was-used')
+                    break
+                if st[0] in ('pad', 'query'):
+                    seen |= script_ancestry(case, st[1])
         if case.get('pmap'):
             keys.append('ctor:map-with-parameter-mapping')
     return keys
@@ -1292,6 +2006,25 @@ def linear_after_parallel(G):
     return False
 
 
+def linear_inputs_absent(case):
+    """the global transformation contains a LinearTransformation none of whose inputs is among the channels that
+    reach it"""
+    G = case.get('G')
+    if not G:
+        return False
+    cp = case.get('cp') or {}
+    chans = {(cp.get('chmap') or {}).get(c, c) for c in out_channels(case['tree'])}
+    for t in (G['ts'] if G['k'] == 'chain' else [G]):
+        if t['k'] == 'parallel':
+            chans |= set(t['m'])
+        elif t['k'] == 'linear':
+            if not set(t['ins']) & chans:
+                return True
+            if set(t['ins']) <= chans:
+                chans = (chans - set(t['ins'])) | set(t['outs'])
+    return False
+
+
 def merged_values_lost(case, obs):
     """independent oracle for with_parallel_channels on an UNNAMED ParallelChannelPT (the value dicts are merged into one
     node): the channels given in the call must play the given values.  Only judged when nothing below can overwrite
@@ -1321,6 +2054,8 @@ def classify(case, obs):
         return None
     if case['kind'] == 'opt' and obs['opt'].get('raise') == 'KeyError' and linear_after_parallel(case['G']):
         return 'linear_after_parallel_partial_inputs'
+    if case['kind'] == 'opt' and obs['opt'].get('raise') == 'KeyError' and linear_inputs_absent(case):
+        return 'linear_inputs_absent'
     if case['kind'] == 'opt':
         eff = effective_paths(case['tree'], case['S'])
         if under_reversal(case['tree'], eff):
@@ -1336,6 +2071,18 @@ def classify(case, obs):
     return None
 
 
+def shrink(case, obs, ctx=None):
+    from props import c05_search
+    import sys
+    return c05_search.shrink(sys.modules[__name__], case, obs, ctx)
+
+
+def search_failing(ctx, broken):
+    from props import c05_search
+    import sys
+    return c05_search.search_failing(sys.modules[__name__], ctx, broken)
+
+
 MANIFEST = {
     'level_text': 'Proof: for a faithful executable model of create_program with to_single_waveform / '
                   'global_transformation (builder, to_waveform, waveform sampling, transformation chaining, KeyError as '
@@ -1346,16 +2093,22 @@ MANIFEST = {
                   'refuted on witnesses (the reversal clause only excludes collapsed composite templates: collapsing an '
                   'atom is proved to be the identity). Parameters are inside the model: the code\'s scope threading '
                   '(MappedScope, RangeScope, the builder\'s frame stack) is proved equal to compiling the instantiated '
-                  'template for every frame stack, so the option theorems hold for parametrised templates with '
-                  'parameter mappings that rebind names. Constructor claims proved: concatenate/@/with_appended, pad_to, '
-                  'double with_time_reversal, with_repetition/** count merging, chained with_mapping (incl. parameter '
-                  'mappings merged by substitution: equal programs), with_parallel_atomic (distinct channels), chained '
-                  'with_parallel_channels (guarded + refuted). Freedom from KeyError is proved only for the leaf of an '
-                  'un-collapsed atom under a chain without LinearTransformation, not for whole compiled programs. '
-                  'The model is tied to /repo by an exact correspondence check.',
+                  'template for every frame stack. The constant fold of a transformed waveform is proved pointwise '
+                  'correct with the keys Transformation.__call__ returns (a LinearTransformation none of whose inputs '
+                  'is present forwards everything). Constructor claims proved for the functions of Ctors.v: '
+                  'concatenate/@/with_appended, pad_to, double with_time_reversal, with_repetition/** count merging, '
+                  'chained with_mapping (incl. parameter mappings merged by substitution: equal programs), '
+                  'with_parallel_atomic (distinct channels), chained with_parallel_channels (guarded + refuted); that '
+                  'the REAL constructors return the shape Ctors.v predicts (and that pad_to holds the final values of '
+                  'its operand, pt_final) is checked on every constructor case by an executable comparison, not proved. '
+                  'Freedom from KeyError is proved only for the leaf of an un-collapsed atom under a chain without '
+                  'LinearTransformation or under one LinearTransformation whose inputs are all present, not for whole '
+                  'compiled programs. The model is tied to /repo by an exact correspondence check.',
     'level_note': 'see notes/C05.md for which statements are full / guarded / only tested',
     'technique': 'Coq proof by induction over template trees (frame lemma on builder states, scope-threading refinement) '
                  '+ correspondence check on generated parametrised trees x option subsets (incl. name-coincidence, '
-                 'aliasing and stateful families) + one independent Python oracle for with_parallel_channels',
+                 'aliasing, stateful and order-of-operations-on-shared-objects families, create_program argument '
+                 'variants) + structural tie of the constructor functions to the templates the real constructors return '
+                 '+ one independent Python oracle for with_parallel_channels',
     'design_ref': 'DESIGN.md §5 C05',
 }
